@@ -345,8 +345,8 @@ pub fn main(args: &Args) -> Report {
     logic_tables(&mut c);
     null_propagation(&mut c);
     equality_laws(&mut c, &mut rng, 0);
-    comparison_laws(&mut c, &mut rng, if t { 120 } else { 20 });
-    overflow_rule(&mut c, &mut rng, if t { 150 } else { 30 });
+    comparison_laws(&mut c, &mut rng, if t { 1000 } else { 20 });
+    overflow_rule(&mut c, &mut rng, if t { 1500 } else { 30 });
     let mut out = c.out;
     out.samples.push(json!({"law": "number-comparison", "case": "$a < $b with a = 9007199254740993 (Int), b = 9007199254740992.0 (Float): exact arithmetic says false / a > b true"}));
     out.samples.push(json!({"law": "overflow", "case": "$a + $b with a = 9223372036854775807, b = 1: must be a finite Float near 9.223372036854775808e18"}));
